@@ -8,3 +8,4 @@ open OrxPar
 #print axioms C02_idx_value
 #print axioms C02_every_schedule
 #print axioms C02_worker_reports_first
+#print axioms C02_find_all_schedules
